@@ -358,7 +358,30 @@ def rule_scope_sampling(ctx, facts, rule):
             any(v[0] == "call" and re.search(r"Iterator>?::(find|position)$", v[1]) for v in x.via) and
             any(v[0] == "call" and re.search(r"Option::<T>::is_some$", v[1]) for v in x.via) for x in existential)
         has_true = any(x.kind == "const" and str(x.key) == "true" for x in src)
-        ctx.check((ok_any or ok_all_neg or ok_find) and has_true, rule, fn.path, fn.loc(b),
+        # the same fold written as a loop: `let mut s = false; for item in token { if item.is_sampled { s = true; break; } }`
+        ok_loop = False
+        if not (ok_any or ok_all_neg or ok_find) and f["is_sampled"]["k"] in ("copy", "move"):
+            seen, work, defs = set(), [root_local(fn, f["is_sampled"])[0]], []
+            while work:
+                l = work.pop()
+                if l in seen:
+                    continue
+                seen.add(l)
+                for (db, i, st) in fn.defs(l):
+                    if i == "term" and re.search(r"Option::<T>::is_none$", st["callee"]):
+                        defs.append((db, 0))       # `token.is_none()`: false exactly when there is a token to fold over
+                    if i != "term" and st["k"] == "assign" and st["rv"]["k"] == "use":
+                        o = st["rv"]["op"]
+                        if o["k"] == "const" and isinstance(o.get("v"), (int, bool)):
+                            defs.append((db, int(o["v"])))
+                        elif o["k"] in ("copy", "move") and not o["p"]:
+                            work.append(o["l"])
+            sampled_true = bool_cond_edges(fn, prov, lambda x: suffix_is(x, ".is_sampled"), True)
+            in_loop_true = [db for db, v in defs if v == 1 and fn.on_cycle(db) or (v == 1 and sampled_true and fn.guarded([db], sampled_true))]
+            resets = [db for db, v in defs if v == 0 and fn.on_cycle(db)]
+            ok_loop = bool(in_loop_true) and bool(sampled_true) and all(fn.guarded([db], sampled_true) for db in in_loop_true) and not resets \
+                and any(v == 0 for _, v in defs)
+        ctx.check((ok_any or ok_all_neg or ok_find or ok_loop) and has_true, rule, fn.path, fn.loc(b),
                   "SpanLine.is_sampled is an existential fold over the token items' is_sampled (true without a token)",
                   "origins %s" % origin_strs(src),
                   "accepted idioms: Iterator::any, !Iterator::all(!..), find(..).is_some(); found %s via %s" % (
